@@ -75,14 +75,15 @@ PROPS = {
         "assumptions": TRUST,
     },
     "C11": {
-        "technique": "TLA+ stored-form Duration model (ImplDur.tla) model-checked against the abstract laws (MC_C11, 2 twins) + TLC trace validation of recorded duration operations and laws incl. the repository's own tests",
+        "technique": "TLA+ stored-form Duration model (ImplDur.tla) model-checked against the abstract laws (MC_C11, 3 twins) + TLC trace validation of recorded duration operations and laws incl. the repository's own tests",
         "level_text": "For each triple of durations and multiplier TLC re-derives every recorded result (sum in both orders, both associations, "
                       "identity, inverse, n*d, n-fold sum, a-b, a+(-1*b)) as <<years, months, exact length>> and requires the library's ==, hash "
                       "and the four order operators to agree with the specification's equality and rough-length order under the active mode.",
         "drivers": ["c11", "suite_durop1"],
         "mc": [{"module": "MC_C11.tla", "cfg": "MC_C11.cfg"},
                {"module": "MC_C11.tla", "cfg": "MC_C11_twin1.cfg", "expect_violation": True},
-               {"module": "MC_C11.tla", "cfg": "MC_C11_twin2.cfg", "expect_violation": True}], "expect_ops": ["DurLaws", "DurOp1"],
+               {"module": "MC_C11.tla", "cfg": "MC_C11_twin2.cfg", "expect_violation": True},
+               {"module": "MC_C11.tla", "cfg": "MC_C11_twin3.cfg", "expect_violation": True}], "expect_ops": ["DurLaws", "DurOp1"],
         "rule": "one case = one triple (a, b, c) + multiplier with all laws evaluated; every case is non-trivial (b is a respelling of a in 30%, "
                 "a one-component perturbation in 10%, mixed signs and week forms throughout)",
         "assumptions": TRUST,
